@@ -270,6 +270,9 @@ def op_histogram(trace):
             m = re.search(r'"op":"([^"]+)"', line)
             if m:
                 h[m.group(1)] = h.get(m.group(1), 0) + 1
+            m = re.search(r'"out":"([^"]+)"', line)
+            if m and m.group(1) != "ok":
+                h["outcome:" + m.group(1)] = h.get("outcome:" + m.group(1), 0) + 1
     return h
 
 
